@@ -2,7 +2,7 @@
 # bin/seed_final.sh [ids...] -- runs the quick check of the property (plus the other checks named in EXTRA) against every saved
 # seeded change (scratch copy of /repo/py34 + patch, BACPYPES_SRC) and writes seeded/<id>/final.txt
 cd "$(dirname "$0")/.."
-declare -A EXTRA=( [C15-D]="C17" [C04-D]="C14" [C11-D]="C04" [C17-G]="C14" [C07-F]="C10" [C20-H]="C14" [C13-I]="C14" [C16-I]="C14" [C05-I]="C14" [C10-I]="C14" [C15-I]="C01" [C13-J]="C09" [C10-J]="C05" [C04-G]="C11" )
+declare -A EXTRA=( [C15-D]="C17" [C04-D]="C14" [C11-D]="C04" [C17-G]="C14" [C07-F]="C10" [C20-H]="C14" [C13-I]="C14" [C16-I]="C14" [C05-I]="C14" [C10-I]="C14" [C15-I]="C01" [C13-J]="C09" [C10-J]="C05" [C04-G]="C11" [C10-L]="C19" [C11-I]="C18" )
 IDS="$@"; [ -z "$IDS" ] && IDS=$(ls seeded | grep -v "^_")
 for id in $IDS; do
   pid=${id%-*}
